@@ -73,7 +73,7 @@ def tykey(t):
     """must agree with TyKey in GomlSem.tla"""
     k = t["t"]
     if k == "adt":
-        return t["n"] + ("[" + ",".join(tykey(x) for x in t["as"]) + "]" if t["as"] else "")
+        return "%" + t["n"] + ("[" + ",".join(tykey(x) for x in t["as"]) + "]" if t["as"] else "")
     if k == "tuple":
         return "(" + ",".join(tykey(x) for x in t["ts"]) + ")"
     if k == "vec":
@@ -289,7 +289,7 @@ class Program:
         for trait, ty, methods, gens in self.impls:
             for mname, params, ret, body in methods:
                 if trait is None:
-                    fname = f"inherent#{tykey(ty)}#{mname}"
+                    fname = f"inherent#{tykey(ty).lstrip('%')}#{mname}"
                 else:
                     fname = f"impl#{trait}#{tykey(ty)}#{mname}"
                     impls.setdefault(trait + "|" + tykey(ty), {})[mname] = {"fn": fname, "targs": []}
@@ -484,6 +484,7 @@ def R(e, ind=0):
         f = e["f"]
         if f.startswith("inherent#"):
             _, tk, m = f.split("#")
+            tk = tk.lstrip("%")
             if e.get("form") == "method":
                 return atom(e["as"][0], ind) + "." + m + "(" + ", ".join(R(a, ind) for a in e["as"][1:]) + ")"
             return tk + "::" + m + "(" + ", ".join(R(a, ind) for a in e["as"]) + ")"
